@@ -98,12 +98,12 @@ Fixpoint p_expr (fuel : nat) (w : list string) : option (expr * list string) :=
             end
           else if String.eqb tag "Call" then
             match r with
-            | ct :: what :: np :: r2 =>
-                np <- parse_N np ;; ps <- p_params fuel (N.to_nat np) r2 ;; let '(params, r3) := ps in
+            | ct :: what :: np :: nd :: r2 =>
+                np <- parse_N np ;; nd <- parse_N nd ;; ps <- p_params fuel (N.to_nat np) r2 ;; let '(params, r3) := ps in
                 rt <- p_ty fuel r3 ;; let '(ret, r4) := rt in
                 match r4 with
                 | na :: r5 => na <- parse_N na ;; z <- many (N.to_nat na) r5 ;; let '(l, r') := z in
-                              Some (Node (KCall (String.eqb ct "method") (String.eqb what "intrinsic") params ret) t lv l, r')
+                              Some (Node (KCall (String.eqb ct "method") (String.eqb what "intrinsic") nd params ret) t lv l, r')
                 | [] => None
                 end
             | _ => None
@@ -220,7 +220,7 @@ Definition kind_name (k : kind) : string :=
   match k with
   | KLit => "Lit" | KVar => "Var" | KEVal => "EnumValue" | KTern => "Ternary" | KSeq => "Sequence" | KSwz _ => "Swizzle"
   | KOpq w => w | KSub => "Subscript" | KSMem sid _ => String.append "Member-of-struct#" (show_N sid)
-  | KCall _ _ ps _ => String.append "Call(" (String.append (join "," (map (fun p => String.append (show_N (fst p)) (String.append ":" (show_ty (snd p)))) ps)) ")")
+  | KCall _ _ _ ps _ => String.append "Call(" (String.append (join "," (map (fun p => String.append (show_N (fst p)) (String.append ":" (show_ty (snd p)))) ps)) ")")
   | KCtor _ => "Constructor" | KCast => "Cast" | KSizeOf => "SizeOf" | KOp n => n
   end.
 Definition show_node (e : expr) : string :=
